@@ -59,6 +59,7 @@ type JobResult struct {
 	CacheHits  int64                    `json:"query_cache_hits"`
 	CoreHits   int64                    `json:"unsat_core_hits"`
 	PoolHits   int64                    `json:"model_pool_hits"`
+	XCheck     *XCheck                  `json:"solver_crosscheck,omitempty"`
 	SolverS    float64                  `json:"solver_s"`
 	WallS      float64                  `json:"wall_s"`
 	InitS      float64                  `json:"init_s"`
@@ -185,6 +186,10 @@ func runJob(prog *ssa.Program, job Job, verbose bool) *JobResult {
 			cfg.Witnesses = int(v)
 		case "WitnessEvery":
 			cfg.WitnessEvery = v
+		case "XCheckEvery":
+			cfg.XCheckEvery = int(v)
+		case "XCheckMax":
+			cfg.XCheckMax = int(v)
 		case "MaxDepth":
 			cfg.MaxDepth = int(v)
 		default:
@@ -248,6 +253,9 @@ func runJob(prog *ssa.Program, job Job, verbose bool) *JobResult {
 	res.CacheHits = ex.cacheHits
 	res.CoreHits = ex.coreHits
 	res.PoolHits = ex.poolHits
+	if cfg.XCheckEvery > 0 {
+		res.XCheck = runXCheck(ex.xsamples, os.Getenv("GOSYM_XDUMP"))
+	}
 	res.SolverS = ex.solverDur.Seconds()
 	res.Funcs = sortedKeys(ex.funcs)
 	res.Stubs = sortedKeys(ex.stubs)
